@@ -1,12 +1,13 @@
 import GbVerif.Proofs.PpuBits
 import GbVerif.Proofs.PpuSel
+import GbVerif.Proofs.PpuFrame
 /-!
 C15 — the frame presented at VBlank equals the reference composition.
 Property theorems only; lemmas are in `Proofs/Ppu*.lean`.
 Model: `Model/Ppu.lean` (mirror of `src/devices/video/*.rs`); spec: `Spec/Frame.lean`.
 -/
 namespace GbVerif.C15
-open GbVerif.Ppu GbVerif.FrameSpec GbVerif.PpuBits GbVerif.PpuObj GbVerif.PpuSel
+open GbVerif.Ppu GbVerif.FrameSpec GbVerif.PpuBits GbVerif.PpuObj GbVerif.PpuSel GbVerif.PpuLine GbVerif.PpuFrame
 
 /-! ### stage (i): bit tricks and tile addressing -/
 
@@ -80,5 +81,100 @@ example :
   refine ⟨⟨by decide, by decide, by decide, by decide, by decide, by decide, by decide, by decide⟩,
     by simp, by simp, isBytes_replicate _ _ (by decide), isBytes_replicate _ _ (by decide), ?_⟩
   decide +kernel
+
+/-! ### stages (iii)–(v): the pixel pipeline
+
+`tpos`/`tcol`/`trow` (Proofs/PpuLine) say where pixel `i` of the line lies: position in its tile,
+map column, fetched row register — of the window if the window is enabled, `ly ≥ WY` and
+`i + 7 ≥ WX`, of the scrolled background otherwise.  `LineInv … i s` is the loop invariant on the
+pixel index (line-buffer prefix `[0, i)` equals the reference, every other buffer cell untouched,
+object-cache read position `8 + i`, configuration unchanged) and `Pipe … i s t` its shift-register
+part (`tile_x = t`, register = rest of the current tile row, `next_cached_tile_x` = next column). -/
+
+/-- (iii)+(v) BG and window: the colour index the shift register holds for pixel `i` is the
+reference's BG/window colour at (i, ly) — every SCX/SCY (fine scroll, wrap at 256), both maps,
+both tile-data modes, window left of / inside / right of the screen (all WX, WY). -/
+theorem bg_window_colour_spec (r : Ppu.Regs) (vram : Array Nat) (ly i : Nat) (hr : RegsOk r)
+    (hvb : IsBytes vram) (hly : ly < 144) :
+    ((trow r vram ly i <<< (2 * tpos r ly i)) % 65536) / 16384 = bgWinColour (toSpec r) (mem vram) i ly :=
+  shifted_spec r hr vram hvb ly i (by omega)
+
+/-- (iv) object mixing: given the object-cache byte of stage (ii) and the BG/window colour index,
+the pipeline's choice (object present ∧ (priority ∨ BG colour 0) → object palette, else BGP) is
+the reference pixel, for all BGP/OBP0/OBP1. -/
+theorem mixing_spec (r : Ppu.Regs) (vram oam : Mem) (x ly : Nat) :
+    mixM (Cfg.ofRegs r) (cacheByteSpec (toSpec r) vram oam x ly) (bgWinColour (toSpec r) vram x ly) =
+      .ok (FrameSpec.pixel (toSpec r) vram oam x ly) :=
+  mix_spec r vram oam x ly
+
+/-- one pixel of the mode-3 loop preserves the invariant (no panic; pixel `i` = reference pixel;
+shift, window switch at `i + 1 + 7 = WX`, tile fetch when the tile is used up). -/
+theorem pixel_step_spec (r : Ppu.Regs) (vram oam : Array Nat) (ly : Nat) (base : State) (i t : Nat) (s : State)
+    (hr : RegsOk r) (hv : vram.size = 8192) (hvb : IsBytes vram) (hly : ly < 144)
+    (hco : CacheOk r vram oam ly base.objCache) (hi : i < 160)
+    (inv : LineInv r vram oam ly base i s) (pipe : Pipe r vram ly i s t) :
+    ∃ t' s', pixelStep (active r ly) vram t i s = .ok (t', s') ∧ LineInv r vram oam ly base (i + 1) s' ∧
+      (i + 1 < 160 → Pipe r vram ly (i + 1) s' t') :=
+  pixelStep_inv r hr vram oam hv hvb ly hly base hco i t s hi inv pipe
+
+/-- `line_spec`, partial: the forty drawing ticks of mode 3 (each recomputes `tile_x` from the dot
+count and draws 4 pixels) started from a state that satisfies the invariant at pixel 0 end, without
+panic, in a state whose line buffer holds the reference line `ly` (`LineInv … 160`): all 160 pixels
+equal `FrameSpec.pixel`, every other cell of the writing buffer is unchanged, the visible buffer and
+the mode are unchanged.
+
+Missing for the full `line_spec`/`frame_spec` (covered by the three-way correspondence only):
+(a) that the mode 2→3 set-up `enterMode3` establishes `LineInv … 0` and `Pipe … 0 (tpos r ly 0)`
+    (window first tile for WX ≤ 7, BG first tile with the SCX fine-scroll shift otherwise);
+(b) the composition over the 114 ticks of a line and the 144 lines of a frame (idle ticks are proved:
+    `PpuFrame.runTicks_idle`), ending in the swap below. -/
+theorem line_spec_partial (r : Ppu.Regs) (vram oam : Array Nat) (ly : Nat) (s : State) (t : Nat)
+    (hr : RegsOk r) (hv : vram.size = 8192) (hvb : IsBytes vram) (hly : ly < 144)
+    (hco : CacheOk r vram oam ly s.objCache) (hm : s.mode = .m3) (hd : s.dots = 0)
+    (inv : LineInv r vram oam ly s 0 s) (pipe : Pipe r vram ly 0 s t) :
+    ∃ s', runTicks vram oam 40 s = .ok s' ∧ LineInv r vram oam ly { s with dots := 160 } 160 s' :=
+  drawTicks_inv vram oam r hr hv hvb ly hly 40 0 s s rfl hco hm hd inv (fun _ => ⟨t, pipe⟩)
+
+/-- the reference line read off the invariant -/
+theorem line_of_inv (r : Ppu.Regs) (vram oam : Array Nat) (ly : Nat) (base s : State)
+    (inv : LineInv r vram oam ly base 160 s) (x : Nat) (hx : x < 160) :
+    mem s.writing (ly * 160 + x) = FrameSpec.pixel (toSpec r) (mem vram) (mem oam) x ly :=
+  inv.done x hx
+
+/-- `frame_spec`, partial: at the end of line 143's HBlank the buffers are swapped, so the frame
+presented at VBlank is the writing buffer the 144 lines were drawn into.  (Full statement: from
+power-on, after 1140 + 144·114 ticks `visible = FrameSpec.frame`; needs (a) and (b) above.) -/
+theorem frame_swap_partial (vram oam : Array Nat) (s : State) (hm : s.mode = .m0) (hd : s.dots + 4 ≥ 188)
+    (hl : ¬ s.line < 143) :
+    tick s vram oam = .ok { s with dots := s.dots + 4 - 188, line := 144, mode := .m1,
+                                   visible := s.writing, writing := s.visible } := by
+  simp only [tick, hm, hd, hl, if_true, if_false, pure, Except.pure]
+
+/-- non-vacuity of `line_spec_partial`: a mode-3 entry state meeting its hypotheses (BG only,
+SCX = 3, SCY = 5, VRAM all 0xFF) -/
+example :
+    let r : Ppu.Regs := ⟨0x91, 3, 5, 0, 0, 0xe4, 0xe4, 0xe4⟩
+    let vram := Array.replicate 8192 255
+    let oam := Array.replicate 160 0
+    let s : State := { cfg := Cfg.ofRegs r, visible := Array.replicate 23040 0, writing := Array.replicate 23040 0,
+                       mode := .m3, dots := 0, line := 0, nextTileX := (tcol r 0 0 + 1) % 32,
+                       tileCache := (trow r vram 0 0 <<< (2 * tpos r 0 0)) % 65536,
+                       objCache := Array.replicate 176 0, objPix := 8, windowLine := none }
+    RegsOk r ∧ vram.size = 8192 ∧ IsBytes vram ∧ CacheOk r vram oam 0 s.objCache ∧ s.mode = .m3 ∧ s.dots = 0 ∧
+      LineInv r vram oam 0 s 0 s ∧ Pipe r vram 0 0 s (tpos r 0 0) := by
+  intro r vram oam s
+  have hr : RegsOk r := ⟨by decide, by decide, by decide, by decide, by decide, by decide, by decide, by decide⟩
+  have hvb : IsBytes vram := isBytes_replicate _ _ (by decide)
+  have hob : IsBytes oam := isBytes_replicate _ _ (by decide)
+  refine ⟨hr, by simp [vram], hvb, ?_, rfl, rfl, ?_, ⟨rfl, rfl, rfl⟩⟩
+  · obtain ⟨cache, h1, h2, h3⟩ := findSprites_spec r hr vram oam (by simp [vram]) (by simp [oam]) hvb hob 0
+    have hoff : (Cfg.ofRegs r).objectEnabled = false := by decide +kernel
+    have : findCurrentLineSprites (Cfg.ofRegs r) vram oam 0 = .ok (Array.replicate 176 0) := by
+      simp [findCurrentLineSprites, hoff, pure, Except.pure]
+    rw [this] at h1
+    cases h1
+    exact ⟨h2, h3⟩
+  · refine ⟨rfl, rfl, by simp [s], rfl, rfl, by decide +kernel, rfl, rfl, rfl, ?_, fun _ _ => rfl, Nat.mod_lt _ (by decide)⟩
+    intro j hj; omega
 
 end GbVerif.C15
